@@ -472,6 +472,27 @@ func main() {
 		ordered(src(goc), "dm.lookupOnOwners(hkey, key)", "dm.lookupOnReplicas(hkey, key)", "dm.sanitizeAndSortVersions(versions)")
 	addBool("get_reads_owner_under_read_lock_then_replicas", reads, "a Get reads the owner's copy under the fragment's read lock, then asks the replica owners, then picks among the gathered versions")
 
+	// ---- structural facts: fragment hand-over (C03)
+	fragGo2 := parse("internal/dmap/fragment.go")
+	balGo := parse("internal/dmap/balance.go")
+	trGo := parse("internal/kvstore/transport.go")
+	mv := funcDecl(fragGo2, "fragment", "Move")
+	mf := funcDecl(balGo, "DMap", "mergeFragments")
+	fmf := funcDecl(balGo, "DMap", "fragmentMergeFunction")
+	imp := funcDecl(trGo, "KVStore", "Import")
+	rrp := funcDecl(getGo, "DMap", "readRepair")
+	handover := mv != nil && mf != nil && fmf != nil && imp != nil && rrp != nil &&
+		// export, send to every target, and only then drop; the fragment keeps its DMap's name
+		ordered(src(mv), "f.Lock()", "i.Export()", "Name:    name,", "NewMoveFragment(value)", "return err", "return i.Drop(index)") &&
+		!strings.Contains(src(mv), "TrimPrefix") &&
+		ordered(src(mf), "dm.loadOrCreateLockedFragment(part)", "f.storage.Import(fp.Payload", "dm.fragmentMergeFunction(f, hkey, entry)") &&
+		strings.Contains(src(fmf), "dm.sortVersions(versions)") &&
+		// the import reports the first entry it could not merge
+		ordered(src(imp), "err = f(hkey, e)", "return err == nil", "return err") &&
+		// previous owners are not repaired
+		ordered(src(rrp), "value.previousOwner", "continue", "NewPutEntry")
+	addBool("handover_merges_lww_then_drops", handover, "fragment.Move exports a table, sends it under the DMap's own name, and drops it only after every receiver acknowledged; the receiver merges entry by entry (last write wins) and reports a failed merge; read repair skips previous owners")
+
 	// ---- structural facts: pub/sub (C14)
 	psGo := parse("internal/pubsub/pubsub.go")
 	pub := funcDecl(psGo, "PubSub", "Publish")
